@@ -71,19 +71,25 @@ CHECKS = {
              "of the token just matched and precedes any yyinput of its action) consumed ++ unread = the concatenation of all sources - "
              "each input byte is consumed exactly once and in order, across refills, yywrap, yymore, yyless, yyinput. The machine (extracted) is the oracle: "
              "compiled scanners (4 back ends, %pointer/%array, small buffers, several sources) running generated action programs are "
-             "compared event by event (rule, yyleng, hash of yytext, yyinput values). Partial: the buffer-layout refinement (R4b/R6 "
-             "concrete) is not proved, the tie of the C code to the machine is differential.",
+             "compared event by event (rule, yyleng, hash of yytext, yyinput values). yyunput on the buffer as addresses (coq/Unput.v): "
+             "C08_unput_overlapping_move_is_right, C08_unput_pushes_in_front, C08_unput_overflow_exact, C08_unput_stays_inside, "
+             "C08_unputs_then_rescanned; compiled scanners on a grid of (back end, buffer size, bytes buffered, token offset, number of "
+             "unputs) stop with 'push-back overflow' exactly when the model does and rescan the model's unread bytes. "
+             "The tie of the C code to the models is differential.",
         design="DESIGN.md section 6 C08", technique="machine-checked laws of an executable specification (Rocq) + differential event streams"),
     "C09": dict(
         text="Rocq theorems C09_lineno_conservation (in every reachable state of the stream machine, for all rules, inputs, sources and "
              "yyless/yyunput/yyinput/yymore calls: yylineno = 1 + newlines of everything - newlines still unread) and "
-             "C09_untouched_without_option. Compiled scanners print yylineno in every action and are compared with the machine.",
+             "C09_untouched_without_option; for scanners whose actions REJECT: C09_reject_does_not_count_lines (the number an action sees "
+             "is one plus the newlines consumed before its token plus those of the text handed to it, whatever was rejected before). "
+             "Compiled scanners print yylineno in every action and are compared with the machine / with rej_tokens_ln.",
         design="DESIGN.md section 6 C09", technique="machine-checked invariant (Rocq) over all histories + differential event streams"),
     "C10": dict(
         text="Rocq theorems C10_eof_only_when_exhausted (the <<EOF>> action of the current condition runs only when no byte is left in "
              "any source) and C10_wrap_continues (a source supplied by yywrap continues in the unchanged condition, at BOL, nothing lost). "
              "Compiled scanners with <<EOF>> rules over subsets of conditions and 1-4 sources chained by yywrap are compared event by "
-             "event with the machine.",
+             "event with the machine; sources that report end of input and deliver more afterwards (user YY_INPUT): yywrap consulted once "
+             "per report, the tokens between two consultations judged by the proved validator against one piece.",
         design="DESIGN.md section 6 C10", technique="machine-checked proof (Rocq) about the executable specification + differential event streams"),
     "C11": dict(
         text="Rocq theorems about the buffer model (coq/Buffers.v): C11_other_buffers_untouched (for EVERY operation - create, scan_*, "
@@ -127,7 +133,7 @@ CHECKS = {
              "data of the flagged width, zero padding: decode(encode t ++ rest) = (t, rest)), C15_tables_are_64bit_aligned, "
              "C15_sets_found_by_name (sets concatenated in ANY order are each found by name), C15_truncated_never_found (every proper "
              "prefix of a set file is refused), C15_wrong_magic_rejected; magic / ids / flags come from the source on every run. Real "
-             "--tables-file output of every table representation is read by the extracted decoder, compared with the in-code tables, "
+             "--tables-file output of every table representation (incl. yy_acclist of REJECT scanners and of rules with variable trailing context) is read by the extracted decoder, compared with the in-code tables, "
              "re-encoded byte-identically, loaded by the real yytables_fload (streams = in-code scanner; ASan/UBSan + leak check), "
              "truncated at ~60 offsets per file, concatenated in all orders, and checked with tables-verify scanners.",
         design="DESIGN.md section 6 C15", technique="machine-checked proof (Rocq) of the codec + proved decoder run on real files + differential loading"),
